@@ -130,7 +130,7 @@ def run_traj(c, work):
                 fails.append(("g96:reverse", "reversing velocities of a g96 file changed more than the sign of the velocities"))
     elif fmt == "xyz":
         from infretis.classes.engines import engineparts as E
-        names = ["H", "O", "He"][:n]
+        names = ["H", "O", "He", "C", "N", "Ar"][:n]
         for t, fr in enumerate(frames):
             E.write_xyz_trajectory(f, np.array(fr["pos"]), np.array(fr["vel"]), names, np.array(fr["box"]), step=t, append=t > 0)
         mine = parse_xyz(f)
